@@ -32,10 +32,15 @@ def one_app(rng, tier, dist, opts=None):
 
 def gen(rng, tier, dist):
     n = 1500 if tier == "quick" else 20000
-    out = []
+    out = list(sc.macro_cases())
+    dist["macro-made metadata blocks"] = len(out)
     for c in range(n):
-        opts = {"p_soft": 0.3 if rng.random() < 0.3 else 0.0}
-        app, ref = one_app(rng, tier, dist, opts)
+        opts = {"p_soft": 0.3 if rng.random() < 0.3 else 0.0, "p_rdep": 0.2}
+        if c % 12 == 11:
+            app = sc.static_app()         # the macro-made application
+            ref = sc.Ref(app)
+        else:
+            app, ref = one_app(rng, tier, dist, opts)
         tree, flat, apro = app.tree(), sc.flat_text(ref.flat), sc.apro_text(app, ref.flat, ref.dirs)
         r = rng.random()
         if r < 0.8 or not ref.flat:
@@ -190,6 +195,8 @@ def canon(case, line):
 
 def spec_check(case, impl):
     f = case.split(" ")
+    if f[0] == "macro":
+        return sc.macro_check(case, impl)
     if impl.startswith("CRASH") or impl == "NOOUT" or impl.startswith("BADCASE"):
         return "crash: " + impl[:300]
     kv = sc.kv_fields(impl)
